@@ -672,8 +672,13 @@ class Interp:
             mode = s.get('mode', 0) % 3
             if mode == 0:      # same location (any order of the same qudits)
                 loc = list(r.loc)
-                if s.get('perm', 0) % 2 and len(loc) > 1:
+                pm = s.get('perm', 0) % 4
+                if pm == 1 and len(loc) > 1:
                     loc = loc[1:] + loc[:1]
+                elif pm == 2 and len(loc) > 2:
+                    loc = loc[:1] + loc[:0:-1]    # same first qudit
+                elif pm == 3 and len(loc) > 1:
+                    loc = loc[::-1]
             else:              # overlapping different location
                 keep = r.loc[s.get('q', 0) % len(r.loc)]
                 others = [q for q in range(n) if q != keep]
@@ -799,6 +804,11 @@ class Interp:
 
                 def chk_fold(ret, rd=rd):
                     p = tuple(ret)
+                    if not c.is_point_in_range(p):
+                        self.fail_prog('prog_fold_return',
+                                       f'returned point {p} is outside the '
+                                       f'circuit ({c.num_cycles} cycles)')
+                        return
                     if c.is_point_idle(p) or not isinstance(
                             c[p].gate, CircuitGate):
                         self.fail_prog('prog_fold_return',
